@@ -169,7 +169,8 @@ class Experiment:
 
         CobaContext.logger.log("Experiment Started")
 
-        if result_file and Path(result_file).exists():
+        #a run that was killed right after it created the file leaves it empty, there is nothing to restore then
+        if result_file and Path(result_file).exists() and Path(result_file).stat().st_size > 0:
             CobaContext.logger.log("Restoring Results")
             restored = Result.from_file(result_file)
         else:
